@@ -578,9 +578,14 @@ func (i *IfUnless) Evaluation(
 
 			i.ifNarrowTs = make(map[string][]base.T)
 
-			_, err := i.getBackupContext(e, *p, ctx)
+			elsifZaoriks, err := i.getBackupContext(e, *p, ctx)
 			if err != nil {
 				p.Fatal(ctx, err)
+			}
+
+			// a variable tested only here gets its type back after `end` as well
+			for _, zaorik := range elsifZaoriks {
+				defer zaorik()
 			}
 
 			resultTs = append(resultTs, p.GetLastEvaluatedT())
